@@ -68,13 +68,21 @@ def class_distance(gem):
     return None
 
 
-def direct_case(seed, prop, idx, nmax=16, kmax=6, scales=(0.1, 0.5, 1.0, 2.0, 4.0, 8.0), nmin=1):
+def direct_case(seed, prop, idx, nmax=16, kmax=6, scales=(0.1, 0.5, 1.0, 2.0, 4.0, 8.0), nmin=1, big=False, big_n=64,
+                big_wass=32):
     """Build (desc, gem, P, logits, A, X) for direct-call case number idx."""
     rng = gen.rng_for(seed, prop, "direct", idx)
     nonneg = bool(rng.random() < 0.25)
     desc = gen.random_gemini_desc(rng, nonneg=nonneg)
     n = int(rng.integers(nmin, nmax + 1))
     K = int(rng.integers(2, kmax + 1))
+    if big and rng.random() < 0.12:
+        # occasional wide shapes: a defect confined to many samples / many clusters must not hide behind small cases
+        wass = isinstance(desc, dict) and desc.get("cls") == "WassersteinGEMINI"
+        hi = big_wass if wass else big_n
+        if hi > nmax:
+            n = int(rng.integers(nmax + 1, hi + 1))
+        K = int(rng.integers(2, 13))
     d = int(rng.integers(1, 5))
     kind = "nonneg" if nonneg else ["blobs", "ties", "duprows", "small", "large"][int(rng.integers(0, 5))]
     if isinstance(desc, dict) and desc.get("kernel") in ("sigmoid", "poly", "polynomial") and kind == "large":
@@ -82,9 +90,22 @@ def direct_case(seed, prop, idx, nmax=16, kmax=6, scales=(0.1, 0.5, 1.0, 2.0, 4.
     X = gen.make_data(rng, n, d, kind)
     gem = gen.gemini_from_desc(desc)
     A = gen.affinity_for(gem, desc, X, rng)
+    mag = 0.0
+    if A is not None and rng.random() < 0.2:
+        # affinities of tiny / huge magnitude (data in other units, rescaled user matrices): the score of a distance
+        # GEMINI is homogeneous in the affinity, nothing may depend on its absolute size
+        mag = float(rng.uniform(-18, 6))
+        if isinstance(desc, dict) and desc.get("cls") == "WassersteinGEMINI":
+            # the network-simplex solver behind the Wasserstein GEMINI compares reduced costs with an absolute 1e-16:
+            # it is scale-invariant down to costs of ~1e-12 only (probed) - stay well inside that range
+            mag = float(rng.uniform(-4, 6))
+        A = np.asarray(A, dtype=float)
+        amax = float(np.max(np.abs(A)))
+        if amax > 0:
+            A = A / amax * 10.0 ** mag          # largest entry has magnitude 10**mag
     scale = float(scales[int(rng.integers(0, len(scales)))])
     P, L = gen.predictions(rng, n, K, scale)
-    info = {"gemini": desc, "n": n, "K": K, "d": d, "data": kind, "logit_scale": scale}
+    info = {"gemini": desc, "n": n, "K": K, "d": d, "data": kind, "logit_scale": scale, "affinity_log10_scale": mag}
     return info, gem, P, L, A, X
 
 
@@ -95,7 +116,7 @@ def mmd_tolerance(gem, P, A, rel=1e-13):
     N, K = P.shape
     pi = P.mean(0)
     q = P / P.sum(0, keepdims=True)
-    e = rel * max(1.0, float(np.max(np.abs(A))))
+    e = rel * float(np.max(np.abs(A)))        # round-off is relative to the kernel's own magnitude (no floor)
     tol = 0.0
     if not gem.ovo:
         p = np.full(N, 1.0 / N)
@@ -111,3 +132,21 @@ def mmd_tolerance(gem, P, A, rel=1e-13):
                     v = max(float(dlt @ A @ dlt), 0.0)
                     tol += pi[k] * pi[kk] * (np.sqrt(v + e) - np.sqrt(max(v - e, 0.0)))
     return float(tol)
+
+
+def score_abs_err(gem, P, A):
+    """Absolute round-off of the score returned by `gem` at predictions P (used as noise floor by the numeric
+    derivative): every f-divergence is a difference of O(1) intermediates; the Wasserstein solver resolves masses to
+    ~1e-16, i.e. costs to ~1e-14*max|cost|; the MMD takes the square root of a difference of kernel means whose round-off
+    is relative to the kernel's own magnitude - never to 1, so that tiny or huge kernels are judged on their own scale."""
+    EPS = np.finfo(float).eps
+    name = [c.__name__ for c in type(gem).__mro__ if c.__name__ in CONCRETE]
+    name = name[0] if name else ""
+    if A is None or name not in ("MMDGEMINI", "WassersteinGEMINI"):
+        return 100 * EPS
+    A = np.asarray(A, dtype=float)
+    amax = float(np.max(np.abs(A))) if A.size else 0.0
+    if name == "WassersteinGEMINI":
+        # + the solver's absolute 2.2e-16 on reduced costs times a unit of mass
+        return 1e-14 * amax + 100 * EPS * amax + 1e-15
+    return mmd_tolerance(gem, np.clip(P, gem.epsilon, 1 - gem.epsilon), A, rel=1e-14)
